@@ -908,3 +908,35 @@ Proof.
     destruct m as [b| | |b|b|b|b b'|]; try destruct b; try destruct b'; reflexivity.
   - intro ro. cbn [fstep]. unfold p1. cbn [p_exists p_os]. rewrite Hex. destruct ro; reflexivity.
 Qed.
+
+(* ================================================================ statements as Props/C18.v quotes them *)
+
+Theorem name_roundtrip fd : int64_ok (fd_num fd) = true ->
+  parse_name (gen_name fd) = Some fd /\ parse_name (gen_old_name fd) = Some fd /\
+  (forall fd', int64_ok (fd_num fd') = true -> gen_name fd' = gen_name fd -> fd' = fd).
+Proof.
+  intro H. split; [now apply parse_gen_name|split; [now apply parse_gen_old_name|]].
+  intros fd' H' E. now apply gen_name_inj.
+Qed.
+
+Theorem getmeta_readonly_pure :
+  (forall v, snd (get_meta_ops true v) = []) /\
+  (forall v, snd (get_meta true v) = v) /\
+  (forall s, snd (get_meta_fs true s) = s) /\
+  (forall ro v, fst (get_meta_ops ro v) = get_meta_result v).
+Proof.
+  split; [exact get_meta_ro_no_ops|split; [exact get_meta_ro_view|split; [exact get_meta_fs_ro|exact get_meta_result_mode]]].
+Qed.
+
+Theorem open_file_ro_creates_lock : open_file_view true [] = [(s_LOCK, [])].
+Proof. reflexivity. Qed.
+
+(* a reachable process state: a read-write storage is open and holds its in-process lock *)
+Definition ex_proc : proc :=
+  fst (fst (fstep (fst (fst (fstep (PR false OsFree []) (FOpenFile false)))) (FLock 0%nat))).
+
+Theorem ex_proc_reachable :
+  freach ex_proc /\ p_os ex_proc = OsExcl /\ p_exists ex_proc = true /\
+  nth_error (p_stors ex_proc) 0 = Some (ST false false (Some 0) 1) /\
+  snd (fst (fstep (PR false OsFree []) (FOpenFile true))) = SErrNotExist.
+Proof. split; [repeat constructor|]. repeat split; reflexivity. Qed.
